@@ -43,7 +43,8 @@ OwnKeys(s) == {x.key : x \in {y \in Pos : y.sec = s}} \cup ContextKeys(s)
 \*  keylike : names that are option names of OTHER sections of the input format
 \*  shared  : one variable per distinct literal
 \*  secref  : no variable: ${SECTION:KEY} of another position that holds the same literal (when there is one)
-Schemes == {"plain", "keylike", "shared", "secref"}
+\*  chained : v1 .. v9, each defined as ${w1} .. ${w9}, which hold the literals (a variable defined through a variable)
+Schemes == {"plain", "keylike", "shared", "secref", "chained"}
 KeyLike(p) == CASE p = 1 -> "A-B" [] p = 2 -> "x" [] p = 3 -> "nr" [] p = 4 -> "cutoff" [] p = 5 -> "target"
                 [] p = 6 -> "y" [] p = 7 -> "dr" [] p = 8 -> "drho" [] p = 9 -> "interpolation"
 Partner(p) == \* another position with the same literal in a different section (for ${SECTION:KEY})
@@ -53,6 +54,7 @@ VarName(scheme, p) == CASE scheme = "plain" -> "v" \o ToString(p)
                         [] scheme = "keylike" -> KeyLike(p)
                         [] scheme = "shared" -> At(p).lit
                         [] scheme = "secref" -> "v" \o ToString(p)
+                        [] scheme = "chained" -> "v" \o ToString(p)
 \* unreferenced variables: names chosen to collide with optional keys the sections do NOT define
 ExtraVars == {"cutoff", "dr", "target2", "xy", "Al.charge", "B-A", "g(r)", "Al-Cu", "Al"}
 
@@ -71,10 +73,15 @@ Token(p) == IF p \notin P THEN [t |-> "lit", v |-> At(p).lit]
             ELSE IF UsesSecRef(p) THEN [t |-> "secref", s |-> At(Partner(p)).sec, k |-> At(Partner(p)).key]
             ELSE [t |-> "var", n |-> VarName(scheme, p)]
 \* [Variables]: the variables of the lifted positions, and the unreferenced ones
-LiftedVars == {[n |-> VarName(scheme, p), v |-> At(p).lit] : p \in {q \in P : ~UsesSecRef(q)}}
-Variables == LiftedVars \cup {[n |-> e, v |-> "Lextra"] : e \in extra}
-VarValue(n) == (CHOOSE x \in Variables : x.n = n).v
-WellFormedTemplate == \A a, b \in LiftedVars : a.n = b.n => a.v = b.v     \* one name, one value
+\* a variable holds a literal (ref = "") or refers to another variable
+LiftedVars == IF scheme = "chained"
+              THEN {[n |-> VarName(scheme, p), v |-> "", ref |-> "w" \o ToString(p)] : p \in P}
+                   \cup {[n |-> "w" \o ToString(p), v |-> At(p).lit, ref |-> ""] : p \in P}
+              ELSE {[n |-> VarName(scheme, p), v |-> At(p).lit, ref |-> ""] : p \in {q \in P : ~UsesSecRef(q)}}
+Variables == LiftedVars \cup {[n |-> e, v |-> "Lextra", ref |-> ""] : e \in extra}
+RECURSIVE VarValue(_)
+VarValue(n) == LET x == CHOOSE y \in Variables : y.n = n IN IF x.ref = "" THEN x.v ELSE VarValue(x.ref)
+WellFormedTemplate == \A a, b \in LiftedVars : a.n = b.n => (a.v = b.v /\ a.ref = b.ref)     \* one name, one value
 
 -----------------------------------------------------------------------------
 (* the statement: what each section's consumer sees = the base file *)
